@@ -7,7 +7,7 @@ ALPHA = b"ABCDEFGHIJKLMNOPQRSTUVWXYZabcdefghijklmnopqrstuvwxyz0123456789+/"
 
 class P(Prop):
     ID = "C18"
-    THEOREMS = ["C18_encode_is_rfc4648"]
+    THEOREMS = ["C18_encode_is_rfc4648", "C18_decode_rfc4648", "C18_round_trip", "C18_group", "C18_rejects"]
     COQ_TARGETS = ["theories/Props/C18.vo", "theories/Extract.vo"]
     N_QUICK = 3000
     N_THOROUGH = 60000
@@ -29,6 +29,9 @@ class P(Prop):
         for i in range(n):
             r = rnd.random()
             k = rnd.choice([0, 1, 2, 3, 4, 5, 6, 7, 8, 9, 10, 11, 12, 30, 31, 32, 47, 48]) if i >= big else rnd.choice([65534, 65535, 65536, 8191, 8192, 8193])
+            # the decoder model follows the code (text.chars().nth(index) per character) and is cubic: large inputs go to the encoder only
+            if k > 9000 and r >= 0.35:
+                k = rnd.choice([8191, 8192, 8193])
             b = rbytes(k)
             if r < 0.35:
                 out.append("b64e %s" % b.hex())
